@@ -99,6 +99,98 @@ def replay_pcovr(cfgs):
     return res
 
 
+def replay_routes(cfgs):
+    """PCovR route / component-count resolution: data with a prescribed PCA spectrum, mixing = 1."""
+    from skmatter.decomposition import PCovR
+    rng = np.random.default_rng(11)
+    res = {"agree": 0, "disagree": []}
+    data = {}
+    for e in cfgs:
+        n, m, lam = e["n"], e["m"], e["lam"]
+        key = (n, m, tuple(lam))
+        if key not in data:
+            r = len(lam)
+            A = rng.normal(size=(n, r)); A -= A.mean(0)
+            Q = np.linalg.qr(A)[0]                      # centred orthonormal columns
+            V = np.linalg.qr(rng.normal(size=(m, r)))[0]
+            X = (Q * np.sqrt(np.array(lam, float))) @ V.T
+            Y = rng.normal(size=(n, 2)); Y -= Y.mean(0)
+            data[key] = (X, Y)
+        X, Y = data[key]
+        kq = e["kreq"]
+        ncomp = None if kq[0] == "none" else (int(kq[1]) if kq[0] == "int" else kq[1] / 8.0)
+        try:
+            with warnings.catch_warnings():
+                warnings.simplefilter("ignore")
+                o = PCovR(mixing=1.0, n_components=ncomp, svd_solver=e["solver"], space=None if e["space"] == "none" else e["space"],
+                          random_state=0).fit(X, Y)
+                T = o.transform(X)
+            got = {"accept": True, "rsolver": o.fit_svd_solver_, "rspace": o.space_, "kres": int(o.n_components_), "tcols": int(T.shape[1])}
+        except (ValueError, TypeError):
+            got = {"accept": False}
+        except Exception as ex:  # noqa
+            got = {"accept": "error:" + type(ex).__name__}
+        ok = got["accept"] == e["accept"] and (not e["accept"] or (got["rsolver"] == e["rsolver"] and got["rspace"] == e["rspace"]
+                                                                  and got["kres"] == e["kres"] and got["tcols"] == e["kres"]))
+        if ok:
+            res["agree"] += 1
+        else:
+            res["disagree"].append({"config": e, "got": got})
+    return res
+
+
+def replay_handshake(cfgs):
+    """check_lr_fit / check_krr_fit through PCovR.fit / KernelPCovR.fit: outcome class, no aliasing, no mutation of the user's object."""
+    import copy
+    from sklearn.kernel_ridge import KernelRidge
+    from sklearn.linear_model import LinearRegression, Ridge
+    from skmatter.decomposition import KernelPCovR, PCovR
+    rng = np.random.default_rng(17)
+    res = {"agree": 0, "disagree": []}
+    n = 7
+    for e in cfgs:
+        def mk():
+            return {"lr": LinearRegression(fit_intercept=False), "ridge": Ridge(alpha=0.3, fit_intercept=False),
+                    "krr": KernelRidge(alpha=0.3, kernel="linear")}[e["kind"]]
+        X = rng.normal(size=(n, e["m"])); X -= X.mean(0)
+        Y = rng.normal(size=(n, e["p"])); Y -= Y.mean(0)
+        if e["ynd"] == 1:
+            Y = Y[:, 0]
+        user = mk()
+        if e["fitted"]:
+            Xf = rng.normal(size=(n, e["mfit"])); Xf -= Xf.mean(0)
+            Yf = rng.normal(size=(n, e["pfit"])); Yf -= Yf.mean(0)
+            user.fit(Xf, Yf[:, 0] if e["yndfit"] == 1 else Yf)
+        attr = "dual_coef_" if e["kind"] == "krr" else "coef_"
+        before = copy.deepcopy(user.__dict__)
+        try:
+            with warnings.catch_warnings():
+                warnings.simplefilter("ignore")
+                if e["kind"] == "krr":
+                    o = KernelPCovR(mixing=0.5, n_components=2, regressor=user, kernel="linear").fit(X, Y)
+                else:
+                    o = PCovR(mixing=0.5, n_components=2, regressor=user).fit(X, Y)
+            used = o.regressor_
+            if used is user:
+                got = "aliased"
+            elif not e["fitted"]:
+                got = "fit-clone" if (hasattr(used, attr) and not hasattr(user, attr)) else "user-object-fitted"
+            else:
+                got = "reuse-copy" if np.array_equal(getattr(used, attr), before[attr]) else "refitted"
+        except (ValueError, TypeError):
+            got = "reject"
+        except Exception as ex:  # noqa
+            got = "error:" + type(ex).__name__
+        after = user.__dict__
+        same = set(before) == set(after) and all((np.array_equal(before[k], after[k]) if isinstance(before[k], np.ndarray) else before[k] == after[k])
+                                                 for k in before if not callable(before[k]))
+        if got == e["outcome"] and same:
+            res["agree"] += 1
+        else:
+            res["disagree"].append({"config": e, "got": got, "user_object_unchanged": bool(same)})
+    return res
+
+
 def run(tier):
     r = core.run_tlc("Validation.tla", cfg="mc/Validation.cfg", workers=1)
     if r["error"]:
@@ -108,7 +200,9 @@ def run(tier):
     res = replay_validation(cfgs)
     out["validation_decision_table"].update({"replays_agreeing": res["agree"], "replays_disagreeing": len(res["disagree"]),
                                              "disagreements": res["disagree"][:20]})
-    for name, module, fn in (("train_test_split_overlap", "SplitRef", replay_split), ("pcovr_parameter_validation", "PCovRValidation", replay_pcovr)):
+    for name, module, fn in (("train_test_split_overlap", "SplitRef", replay_split), ("pcovr_parameter_validation", "PCovRValidation", replay_pcovr),
+                             ("pcovr_route_resolution", "PCovRRoutes", replay_routes),
+                             ("regressor_handshake", "RegressorHandshake", replay_handshake)):
         r2 = core.run_tlc(module + ".tla", cfg="mc/%s.cfg" % module, workers=1)
         if r2["error"]:
             raise core.Machinery(module + " model: " + r2["error"])
